@@ -398,6 +398,26 @@ def run(ctx):
             for dialect in dl:
                 judge(ctx, uniquify(t), dialect, None, "coverage")
                 judge(ctx, uniquify(t), dialect, "tb", "coverage")
+    # literal spellings outside the ABNF that a lexer built on \d / \w / \s may accept: IF a
+    # filter is accepted, its SQL must still be well formed and mirror it
+    exotic = [("a", T.lit("int", "\uff15")), ("a", T.lit("int", "-\u0663")), ("a", T.lit("int", "1\u0662")),
+              ("f", T.lit("float", "\uff11.\uff15")), ("f", T.lit("float", "1.5e\uff12")),
+              ("dd", T.lit("date", "\uff12\uff10\uff12\uff10-01-01")),
+              ("d", T.lit("datetime", "2020-01-0\uff11T00:00:00")),
+              ("d", T.lit("datetime", "2020-01-01T00:00:0\u0660Z")),
+              ("s", T.lit("guid", "6c0e37e3-e856-45ee-bd58-484b1188\uff12c67"))]
+    for j, (col, lit) in enumerate(exotic):
+        if ctx.mine(j):
+            for op in ("eq", "lt"):
+                t = ("cmp", op, T.ident(col + "_1"), lit)
+                for dialect in dl:
+                    ctx.cls("exotic-literal-spelling")
+                    if drive.parse_ast(to_text(t))[0] == "ok":
+                        ctx.cls("exotic-literal-spelling-accepted")
+                    judge(ctx, t, dialect, None, "exotic-literal")
+            t = ("cmp", "gt", ("bin", "add", T.ident("d_1"), T.lit("duration", "P\uff11D")), T.ident("d_2"))
+            for dialect in dl:
+                judge(ctx, t, dialect, "tb", "exotic-literal")
     for i in range(ctx.pick(1400, 30000)):
         if ctx.out_of_time():
             break
